@@ -375,6 +375,7 @@ let () =
               (* the property's own statement, on the implementation *)
               (match post.graph with Some g -> chk "panic_ri" (ri_check g) | None -> ());
               chk "panic_acc" (Z.equal (z_of_n post.st.cur) (List.fold_left (fun a (en : entry) -> Z.add a (z_of_n en.es)) Z.zero post.st.ents));
+              chk "mon_c02_sum" (Z.equal (z_of_n post.st.cur) (List.fold_left (fun a (en : entry) -> Z.add a (z_of_n en.es)) Z.zero post.st.ents));
               chk "panic_nodup" (c04_nodup_mon post.st);
               if kname = "closure" then begin
                 chk "panic_bound" (Z.leq (z_of_n post.st.cur) (z_of_n post.st.maxs));
@@ -513,6 +514,8 @@ let () =
               if not tainted.(slot) then begin chk "mon_c01" (c01_mon !e post.st); chk "mon_c02" (c02_mon !e post.st) end;
               (* the counter never exceeds the limit when an operation returns — also in a cache that went through a caught panic *)
               if post.res <> "panic" then chk "mon_c01_cur" (Z.leq (z_of_n post.st.cur) (z_of_n post.st.maxs));
+              (* at every point the counter is the sum of the recorded sizes — also in a cache that went through a caught panic *)
+              chk "mon_c02_sum" (Z.equal (z_of_n post.st.cur) (List.fold_left (fun a (en : entry) -> Z.add a (z_of_n en.es)) Z.zero post.st.ents));
               chk "mon_c04" (c04_nodup_mon post.st);
               (match parse_out post.res with
                | Some o -> if post.res <> "panic" then chk "mon_c06" (c06_mon pre.st p o post.dropped post.st);
